@@ -671,6 +671,20 @@ def _explicit_names(trace):
     return out
 
 
+def _explicit_qualified(trace):
+    """Explicit output names with the scope they were given in: the qualified name the tutorial promises
+    ("v_" + dotted scope + name).  Only top-level calls carry scopes in the alphabets."""
+    out, scope = [], []
+    for c in trace["calls"]:
+        if c["k"] == "push":
+            scope.append(c["name"])
+        elif c["k"] == "pop":
+            scope.pop()
+        elif isinstance(c.get("out"), list):
+            out += ["v_" + ".".join(scope + [n]) for n in c["out"]]
+    return out
+
+
 def _has(trace, kinds):
     return any(c["k"] in kinds for c in _all_calls(trace["calls"]))
 
@@ -681,11 +695,11 @@ def _name_class(trace, name, where):
     last = base.split(".")[-1]
     exp = _explicit_names(trace)
     if base in exp or last in exp or any(base.endswith(e) for e in exp):
-        if exp.count(last) + exp.count(base) - (1 if last == base else 0) >= 2:
-            return "explicit-output-name-reused"
-        if any("." in e for e in exp) and any(c["k"] == "push" for c in trace["calls"]) and \
-                sum(1 for e in exp if e.split(".")[-1] == last) >= 2:
-            return "explicit-output-name-reused"          # "L.a" and "a" inside scope L
+        q = _explicit_qualified(trace)
+        if len(set(q)) != len(q):
+            return "explicit-output-name-reused"          # the caller asked for one qualified name twice
+        if sum(1 for e in exp if e.split(".")[-1] == last) >= 2:
+            return "distinct-scoped-explicit-names-collide"      # different scopes/names, one emitted name
         return "auto-name-equals-explicit-output-name"
     if where.startswith("graph/"):
         return "subgraph-auto-name-redefines-visible-name"
@@ -749,6 +763,10 @@ def _check_model(trace, b, exp, viols, counts, tag):
             if not bad_names:
                 viols.append({"key": f"C18|names|dup-value|{_name_class(trace, mm.group(1), 'checker')}",
                               "detail": {"problem": msg[:300], "variant": tag}})
+        elif _inline_omits_default(trace, tag):
+            # the harness typed an output the builder left untyped with the shape the trace means; the inlined
+            # body, having lost the attribute, produces another one
+            add("not-equal", "inline-ignores-attribute-default", {"problem": msg[:400]})
         else:
             add("invalid-model", "checker:" + re.sub(r"'[^']*'|\"[^\"]*\"|\d+", "_", msg.strip().split("\n")[0])[:70],
                 {"problem": msg[:400]})
@@ -771,6 +789,7 @@ def _check_model(trace, b, exp, viols, counts, tag):
         if exp[fi].get("__unsettled__"):
             outcome = "ran-unsettled"
             continue
+        b.setdefault("ran", []).append(got)
         d = runeq.compare(got, want)
         if d and same_value_twice:
             add("invalid-model", "subgraph-output-listed-twice", {"diff": d, "feed": fi})
@@ -813,17 +832,26 @@ def _returns_outer(trace):
     return False
 
 
+def _inline_omits_default(trace, tag):
+    from vf.props import c18_fns
+    if "inline" not in tag:
+        return False
+    for c in _all_calls(trace["calls"]):
+        if c["k"] == "fn":
+            spec = c18_fns.SPEC[c["fn"]]
+            if any(d["default"] is not None and a not in c["attrs"] for a, d in spec["attrs"].items()):
+                return True
+    return False
+
+
 def _neq_class(trace, tag):
     al = _alias_pairs(_literals(trace))
     if al:
         return "constant-cache-aliases:" + al[0]
     fns = [c for c in _all_calls(trace["calls"]) if c["k"] == "fn"]
+    if _inline_omits_default(trace, tag):
+        return "inline-ignores-attribute-default"
     if fns and "inline" in tag:
-        from vf.props import c18_fns
-        for c in fns:
-            spec = c18_fns.SPEC[c["fn"]]
-            if any(d["default"] is not None and a not in c["attrs"] for a, d in spec["attrs"].items()):
-                return "inline-ignores-attribute-default"
         return "inline"
     if fns:
         return "call"
@@ -884,25 +912,21 @@ def _exec_trace(item):
         oc = _check_model(trace, b, exp, viols, counts, tag)
         outcomes.append(f"{tag}:{oc}")
         built[tag] = b
-    # call vs inline directly (independent of the replay)
-    tags = [t for t in built if built[t].get("outs")]
+    # call vs inline directly: needs no replay, so it also covers traces whose meaning is unsettled
+    tags = [t for t in built if len(built[t].get("ran", [])) == len(T.FEEDS)]
     if len(tags) >= 2:
         ref_tag = tags[0]
         for t in tags[1:]:
             if built[t]["out_ids"] != built[ref_tag]["out_ids"]:
                 continue
-            for fi, feeds in enumerate(T.FEEDS):
-                try:
-                    a = runeq.run_ort(built[ref_tag]["model"], feeds)
-                    c = runeq.run_ort(built[t]["model"], feeds)
-                except runeq.RunError:
-                    break
-                d = runeq.compare(a, c)
-                if d:
-                    viols.append({"key": f"C18|trace|call-vs-inline|{_neq_class(trace, 'inline')}",
-                                  "detail": {"diff": d, "variants": [ref_tag, t], "feed": fi}})
-                    break
             counts["call_inline_pairs_compared"] = counts.get("call_inline_pairs_compared", 0) + 1
+            for fi in range(len(T.FEEDS)):
+                d = runeq.compare(built[ref_tag]["ran"][fi], built[t]["ran"][fi])
+                if d:
+                    if not any("|not-equal|" in v["key"] for v in viols):      # else already explained
+                        viols.append({"key": f"C18|trace|call-vs-inline|{_neq_class(trace, 'inline')}",
+                                      "detail": {"diff": d, "variants": [ref_tag, t], "feed": fi}})
+                    break
     # one violation per key per leaf
     uniq = {}
     for v in viols:
